@@ -167,6 +167,7 @@ class Interp:
         contract['_sha'] = fn.sha()
         if contract.get('function_symbol') or contract.get('frame'):
             self.check_purity(fn, contract)
+        self.check_param_frame(fn, contract)
         loops = frontend.loops_of(fn.node)
         self.loop_ord = {id(n): i + 1 for i, n in enumerate(loops)}
         declared = set((contract.get('loops') or {}).keys())
@@ -260,15 +261,84 @@ class Interp:
         re-assignment inside the body can change what its name denotes) stands for its ENTRY value in `ensures` / `raises_ensures`,
         as in JML / ACSL.  Without this a body that re-assigns a parameter (`value = value[:64]`) would have its post-condition
         checked about the re-assigned value and verify vacuously."""
+        declared, rebound, _ = self.param_frame(self.fn, self.cur)
         for a in self.fn.node.args.args + self.fn.node.args.kwonlyargs:
             o = (st.old or {}).get(a.arg)
             c = st.env.get(a.arg)
-            if isinstance(o, (VInt, VReal, VBool, VStr)) and c is not None and c is not o:
+            if o is None or c is None or c is o:
+                continue
+            if isinstance(o, (VInt, VReal, VBool, VStr)):
                 same = type(c) is type(o) and getattr(c, 't', None) is not None and z3.eq(c.t, o.t) if hasattr(o, 't') else False
                 if not same:
                     if os.environ.get('PYVC_TRACE_ENTRY'):
                         print(f'ENTRY-REBIND {self.cur["key"]}: {a.arg}', file=sys.stderr)
                     st.env[a.arg] = o
+            elif a.arg in rebound and not any(d[0] == a.arg for d in declared):
+                # an object parameter the contract does not list under `modifies` (the `frame.params` obligation checks that the
+                # body does not store into it) whose NAME the body re-binds: the post-condition speaks about the caller's object
+                if os.environ.get('PYVC_TRACE_ENTRY'):
+                    print(f'ENTRY-REBIND(object) {self.cur["key"]}: {a.arg}', file=sys.stderr)
+                st.env[a.arg] = o
+
+    _MUTATORS = {'append', 'extend', 'add', 'update', 'pop', 'remove', 'clear', 'sort', 'insert', 'setdefault', 'discard', 'popitem',
+                 'reverse', 'fill', 'put', 'itemset', 'resize', 'difference_update', 'intersection_update', 'symmetric_difference_update'}
+
+    def param_frame(self, fn, contract):
+        """(declared, rebound, stores): `modifies: param:<name>[.<field>]` entries as (name, field|None); parameter names the body
+        re-binds; syntactic stores into parameters (subscript / attribute assignment, `del`, in-place methods) as (name, field, how)."""
+        params = {a.arg for a in fn.node.args.args + fn.node.args.kwonlyargs}
+        declared = set()
+        for m in contract.get('modifies', []) or []:
+            if m.startswith('param:'):
+                parts = m[6:].replace('[', '.').split('.')
+                declared.add((parts[0], parts[1] if len(parts) > 1 and parts[1] else None))
+        rebound, stores = set(), []
+
+        def chain(n):
+            fields = []
+            while isinstance(n, (ast.Subscript, ast.Attribute)):
+                if isinstance(n, ast.Attribute):
+                    fields.append(n.attr)
+                n = n.value
+            return (n.id if isinstance(n, ast.Name) else None), (fields[-1] if fields else None)
+        for n in ast.walk(fn.node):
+            tg = []
+            if isinstance(n, ast.Assign):
+                tg = n.targets
+            elif isinstance(n, (ast.AugAssign, ast.AnnAssign, ast.For)):
+                tg = [n.target]
+            elif isinstance(n, ast.Delete):
+                tg = n.targets
+            for t in tg:
+                for e in (t.elts if isinstance(t, (ast.Tuple, ast.List)) else [t]):
+                    if isinstance(e, ast.Name) and e.id in params:
+                        rebound.add(e.id)
+                    elif isinstance(e, (ast.Subscript, ast.Attribute)):
+                        b, f = chain(e)
+                        if b in params:
+                            stores.append((b, f, 'store'))
+            if isinstance(n, ast.Call) and isinstance(n.func, ast.Attribute) and n.func.attr in self._MUTATORS:
+                b, f = chain(n.func.value)
+                if b == 'self' and f is None:
+                    continue        # a method of the object itself (`self.add(x)`): its effect is the callee contract's `modifies`
+                if b in params:
+                    stores.append((b, f, n.func.attr + '()'))
+        return declared, rebound, stores
+
+    def check_param_frame(self, fn, contract):
+        """Syntactic frame obligation: the body stores only into parameters (fields) the contract lists under `modifies`.  Callers
+        havoc exactly what `modifies` names, so an undeclared in-place change would be invisible to every caller's proof.  (Stores
+        through an alias of a parameter are not seen: stated in DESIGN.)"""
+        declared, rebound, stores = self.param_frame(fn, contract)
+        bad = []
+        for b, f, how in stores:
+            if b in rebound:
+                continue        # after a re-binding the name may denote a local object: not decided syntactically
+            if (b, None) in declared or (f is not None and (b, f) in declared):
+                continue
+            bad.append(f'{b}{"." + f if f else ""}: {how}')
+        self.obligations.append(Obligation(self.oname('frame.params'), [], z3.BoolVal(not bad),
+                                           text='stores only into parameters listed under modifies; found: ' + repr(sorted(set(bad)))))
 
     def check_ensures(self, st, res, contract):
         res = self.coerce_result(res, contract.get('returns'))
